@@ -204,7 +204,7 @@ func (c *evalCtx) eval(e Expr) val {
 		case *types.Basic:
 			if isStringType(base.typ) {
 				i := c.eval(x.I)
-				return val{t: fmt.Sprintf("(str.to_code (str.at %s %s))", base.t, i.t), typ: types.Typ[types.Uint8]}
+				return val{t: fmt.Sprintf("(str.to_code (str.at %s %s))", base.t, i.t), typ: types.Typ[types.Uint8], strAt: fmt.Sprintf("(str.at %s %s)", base.t, i.t)}
 			}
 		case *types.Pointer:
 			if arr, ok := u.Elem().Underlying().(*types.Array); ok {
@@ -293,6 +293,11 @@ func (c *evalCtx) ident(name string) val {
 			vc.assume("true", fmt.Sprintf("(> %s 0)", v.t))
 		}
 		return v
+	}
+	if gt, ok := vc.eng.db.GhostVars[name]; ok {
+		h := "G:ghost." + name
+		vc.eng.regHeap(h, heapDesc{kind: "raw", raw: ghostSort(gt)})
+		return val{t: vc.hget(c.st(), h), typ: ghostGoType(ghostSort(gt))}
 	}
 	if cs, ok := vc.eng.db.Consts[name]; ok {
 		e, err := ParseExpr(cs)
@@ -467,7 +472,9 @@ func (c *evalCtx) binary(x *EBinary) val {
 			c.fail("comparison of different sorts %s and %s in %s", sa, sb, x.String())
 		}
 		var t string
-		if strings.HasPrefix(sa, "(Slice ") {
+		if cmp, ok := charCompare(a, b); ok {
+			t = cmp
+		} else if strings.HasPrefix(sa, "(Slice ") {
 			// sequence equality
 			k := vc.newName("k")
 			t = fmt.Sprintf("(and (= (s.len %s) (s.len %s)) (forall ((%s Int)) (=> (and (<= 0 %s) (< %s (s.len %s))) (= (select (s.arr %s) %s) (select (s.arr %s) %s)))))",
@@ -678,6 +685,42 @@ func (c *evalCtx) call(x *ECall) val {
 		k := vc.newName("k")
 		return val{t: fmt.Sprintf("(and (= (s.len %s) (- (s.len %s) 1)) (forall ((%s Int)) (=> (and (<= 0 %s) (< %s (s.len %s))) (= (select (s.arr %s) %s) (select (s.arr %s) (+ %s 1))))))",
 			a.t, b.t, k, k, k, a.t, a.t, k, b.t, k), typ: tBool}
+	case "unchanged": // unchanged(): every heap array equals its pre-state value on all objects that existed before
+		argN(0)
+		if c.old == nil {
+			c.fail("unchanged() needs a pre-state")
+		}
+		var parts []string
+		if c.cur.ep != c.old.ep {
+			parts = append(parts, epochIs(c.cur.ep, c.old.ep))
+		}
+		for _, h := range sortedKeys(c.cur.heap) {
+			cur, was := c.cur.heap[h], vc.hget(c.old, h)
+			if cur == was {
+				continue
+			}
+			if strings.HasPrefix(h, "G:") {
+				parts = append(parts, fmt.Sprintf("(= %s %s)", cur, was))
+			} else {
+				parts = append(parts, vc.frameFact(cur, was, nil, c.old.alloc))
+			}
+		}
+		if len(parts) == 0 {
+			return val{t: "true", typ: tBool}
+		}
+		return val{t: "(and " + strings.Join(parts, " ") + ")", typ: tBool}
+	case "isnilslice":
+		argN(1)
+		v := c.eval(x.Args[0])
+		return val{t: fmt.Sprintf("(= %s %s)", v.t, S.ZeroOf(v.typ)), typ: tBool}
+	case "strcontains":
+		argN(2)
+		a, b := c.eval(x.Args[0]), c.eval(x.Args[1])
+		return val{t: fmt.Sprintf("(str.contains %s %s)", a.t, b.t), typ: tBool}
+	case "strprefix": // strprefix(s, p): p is a prefix of s
+		argN(2)
+		a, b := c.eval(x.Args[0]), c.eval(x.Args[1])
+		return val{t: fmt.Sprintf("(str.prefixof %s %s)", b.t, a.t), typ: tBool}
 	case "fresh": // fresh(p): p was allocated during the call
 		argN(1)
 		v := c.eval(x.Args[0])
@@ -800,3 +843,33 @@ func (c *evalCtx) call(x *ECall) val {
 }
 
 var _ = ssa.NaiveForm
+
+// epochIs: condition under which the (possibly merged) epoch ep is the epoch target.
+func epochIs(ep, target *epoch) string {
+	if ep == target {
+		return "true"
+	}
+	if ep.a == nil {
+		return "false"
+	}
+	a, b := epochIs(ep.a, target), epochIs(ep.b, target)
+	if a == b {
+		return a
+	}
+	return fmt.Sprintf("(ite %s %s %s)", ep.cond, a, b)
+}
+
+// charCompare: s[i] == 'c' as a string-theory atom (much easier for the solvers than str.to_code).
+func charCompare(a, b val) (string, bool) {
+	if a.strAt == "" {
+		a, b = b, a
+	}
+	if a.strAt == "" {
+		return "", false
+	}
+	n, err := strconv.Atoi(b.t)
+	if err != nil || n < 0 || n > 255 {
+		return "", false
+	}
+	return fmt.Sprintf("(= %s %s)", a.strAt, smtString(string([]byte{byte(n)}))), true
+}
